@@ -332,6 +332,9 @@ def main(argv=None):
         if not rp:
             continue
         path = os.path.join(VERIF, rp)
+        if not os.path.exists(path):
+            known_info.append({'id': e['id'], 'reproduces': None, 'note': 'replay file missing'})
+            continue
         try:
             case = load_case(path)
             try:
